@@ -235,7 +235,7 @@ NodeGroups OrthoPlanariser::computeNodeGroups(EdgeSegments segs) {
             evts.push_back(p.second);
         }
         // Sort events by increasing variable coord.
-        std::sort(evts.begin(), evts.end(), [](Event *a, Event *b) -> bool {return a->varCoord < b->varCoord;});
+        std::stable_sort(evts.begin(), evts.end(), [](Event *a, Event *b) -> bool {return a->varCoord < b->varCoord;});
         // Initialise an empty Node group, and set of open segments.
         Nodes group;
         std::set<EdgeSegment*> openSegs;
